@@ -535,6 +535,32 @@ func c05R7(c *Ctx) {
 	if n == 0 {
 		c.bad("TrzszMain/exit-code", c.pos(f.Pos()), "no return after waiting for the wrapped command")
 	}
+	// wiring: terminal input/output on the client side, the wrapped command's pty on the server side; relay only with -r
+	isStd := func(name string) func(ssa.Value) bool {
+		return func(v ssa.Value) bool {
+			u, ok := strip(v).(*ssa.UnOp)
+			if !ok || u.Op != token.MUL {
+				return false
+			}
+			g, isG := u.X.(*ssa.Global)
+			return isG && g.Name() == name
+		}
+	}
+	for _, w := range []struct {
+		callee string
+		relay  bool
+	}{{"trzsz.NewTrzszFilter", false}, {"trzsz.NewTrzszRelay", true}} {
+		calls := callsIn(f, idIs(w.callee))
+		if len(calls) != 1 {
+			c.bad("TrzszMain/wiring."+shortID(w.callee), c.pos(f.Pos()), "expected exactly one construction of the wrapper / relay")
+			continue
+		}
+		a := calls[0].Common().Args
+		good := len(a) >= 4 && isStd("Stdin")(a[0]) && isStd("Stdout")(a[1]) && isFieldLoad("stdin")(a[2]) && isFieldLoad("stdout")(a[3])
+		c.check(good, "TrzszMain/wiring."+shortID(w.callee), c.ipos(calls[0]), "client side = this process's stdin/stdout, server side = the wrapped command's pty", "the wrapper's four streams are not wired (stdin, stdout, pty.stdin, pty.stdout)")
+		v, known := boolFieldFactAt(calls[0].Block(), "Relay")
+		c.check(known && v == w.relay, "TrzszMain/relay-iff-asked."+shortID(w.callee), c.ipos(calls[0]), "the relay runs exactly when -r was given, the wrapper otherwise", "wrapper and relay are chosen on the wrong edge of the -r option")
+	}
 }
 
 // c05R8: the wrapper's own two pumps. The input pump hands exactly buffer[0:n] of every non-empty read to sendInput and
